@@ -574,16 +574,56 @@ func checkStructShape(c *Ctx, r *Report, ver, fn string) {
 					}
 				}
 			}
-		case *ast.BinaryExpr:
-			if x.Op == token.EQL && litString(x.Y) == "error" {
-				if se, ok := x.X.(*ast.SelectorExpr); ok && qualField(info, se) == fm+".Type" {
-					errSkipOK = true
-					sites = append(sites, w.pos(x.Pos()))
-				}
-			}
 		}
 		return true
 	})
+	// an embedded field whose type is `error` contributes nothing: there is a test of
+	// FieldMetadata.Type against "error", and on its is-error side the iteration ends without
+	// appending anything (however the test is written: skip-and-continue in a filtering loop,
+	// or the append inside the is-not-error branch)
+	if tv := fieldOf(w.lookupType("definitions", "FieldMetadata"), "Type"); tv != nil {
+		nTests, bad := 0, ""
+		allInstrs(fi.SSA, true, func(_ *ssa.Function, b *ssa.BasicBlock, _ int, ins ssa.Instruction) {
+			ifi, ok := ins.(*ssa.If)
+			if !ok {
+				return
+			}
+			cnd, pol := unwrapNot(ifi.Cond, true)
+			bo, isB := cnd.(*ssa.BinOp)
+			if !isB || (bo.Op != token.EQL && bo.Op != token.NEQ) {
+				return
+			}
+			if sa := sliceOf(cnd); !sa.hasField(tv) || !hasConst(sa, `"error"`) {
+				return
+			}
+			nTests++
+			sites = append(sites, w.pos(instrPos(b)))
+			isErr := b.Succs[0]
+			if (bo.Op == token.NEQ) == pol {
+				isErr = b.Succs[1]
+			}
+			seen := map[*ssa.BasicBlock]bool{}
+			work := []*ssa.BasicBlock{isErr}
+			for len(work) > 0 {
+				cur := work[len(work)-1]
+				work = work[:len(work)-1]
+				if seen[cur] || cur.Dominates(b) {
+					continue // back at the loop head (or before the test): the iteration is over
+				}
+				seen[cur] = true
+				for _, in := range cur.Instrs {
+					if call, ok := in.(*ssa.Call); ok && calleeName(call) == "builtin.append" {
+						bad = w.pos(call.Pos())
+					}
+				}
+				work = append(work, cur.Succs...)
+			}
+		})
+		errSkipOK = nTests > 0 && bad == ""
+		if bad != "" {
+			sites = append(sites, bad)
+		}
+	}
 	if ver == "3.1" {
 		// 3.1 uses swagtool.HasEmbeddedField for the error filter in addition to the inline test
 		if at := callsIn(fi.SSA, false, nameIs("generator/swagen/swagtool.HasEmbeddedField")); len(at) > 0 {
